@@ -101,9 +101,12 @@ def run_one(seed, dec):
     def main():
         w = ThreadedWriter(dest, Reactor())
         rc.writer = w
-        q = w._queue
+        # the writer's queue, when it is one of the simulated queues, gives the exact order of arrival;
+        # an implementation that queues some other way is judged by the invoke/return stamps of the offers
+        q = getattr(w, "_queue", None)
         if not isinstance(q, SimQueue):
-            raise _sched.HarnessError("ThreadedWriter's queue is not the sim queue: %r" % (q,))
+            q = None
+            rc.probe("queue_not_observable")
         for ci, cyc in enumerate(cfg["cycles"]):
             w.startService()
             started = s.stamp()
@@ -132,7 +135,7 @@ def run_one(seed, dec):
             # snapshot for the per-cycle check
             checks.append({"cycle": ci, "stop_inv": stop_inv, "fired": fired, "started": started,
                            "delivered": [r.msg.get("nid") for r in dest.records],
-                           "puts": list(zip(q.put_stamps, q.put_log)),
+                           "puts": list(zip(q.put_stamps, q.put_log)) if q is not None else None,
                            "thread_alive": bool(getattr(w, "_thread", None) is not None and w._thread.is_alive())})
             for a in prods:
                 s.yield_point("join")
@@ -198,16 +201,31 @@ def oracle(rc, cfg, dest, checks, offered, STOP):
                                 c["cycle"], len(writers), writers))
         # messages in the order they were put on the queue (whatever else the implementation queues --
         # e.g. a stop marker -- is not a dict and is ignored)
-        put_msgs = [(stamp, x.get("nid")) for stamp, x in c["puts"] if isinstance(x, dict)]
-        order = [n for _s, n in put_msgs]
         got = c["delivered"]
-        if got != order[:len(got)]:
+        if c["puts"] is None:
+            # no observable queue: an offer that returned before another was invoked must be written first
+            for j in range(len(got)):
+                for i in range(j):
+                    a, b = offered.get(got[i]), offered.get(got[j])
+                    if a is not None and b is not None and len(b) > 1 and b[1] < a[0]:
+                        raise Violation(("not_passed_on", {"how": "order"}),
+                                        "cycle %d: message nid=%s was written before nid=%s although the latter's "
+                                        "offer had returned before the former's was made" % (c["cycle"], got[i], got[j]))
+            continue_ = True
+        else:
+            continue_ = False
+        put_msgs = [(stamp, x.get("nid")) for stamp, x in (c["puts"] or []) if isinstance(x, dict)]
+        order = [n for _s, n in put_msgs]
+        if not continue_ and got != order[:len(got)]:
             n = min(len(got), len(order))
             i = next((k for k in range(n) if got[k] != order[k]), n)
             raise Violation(("not_passed_on", {"how": "order"}),
                             "cycle %d: the wrapped destination was called with %s, the queue received %s "
                             "(first difference at %d)" % (c["cycle"], got, order, i))
-        before = [n for stamp, n in put_msgs if stamp < c["stop_inv"]]
+        # (queued before the stop request AND offered before it: an offer still in progress when
+        # stopService is called is concurrent with the stop, the property leaves its fate open)
+        before = [n for stamp, n in put_msgs if stamp < c["stop_inv"]
+                  and n in offered and offered[n][1] < c["stop_inv"]]
         missing = [n for n in before if n not in got]
         if missing:
             raise Violation(("not_passed_on", {"how": "lost"}),
